@@ -11,12 +11,12 @@ open Goyang.Gen.Consts Goyang.Model.Enum
 
 /-- `MaxEnum`, `MinEnum`, `MaxBitfieldSize` of types_builtin.go are the limits of `Goyang.Model.Enum`. -/
 theorem enum_limits_tied :
-    MaxEnum = «yang.MaxEnum» ∧ MinEnum = «yang.MinEnum» ∧ MaxBitfieldSize = «yang.MaxBitfieldSize» := by
+    MaxEnum = «yang:MaxEnum» ∧ MinEnum = «yang:MinEnum» ∧ MaxBitfieldSize = «yang:MaxBitfieldSize» := by
   decide
 
 /-- … and they are the int32 range and the uint32 size the property text speaks of. -/
 theorem enum_limits_are_int32_uint32 :
-    «yang.MaxEnum» = 2 ^ 31 - 1 ∧ «yang.MinEnum» = -(2 ^ 31) ∧ «yang.MaxBitfieldSize» = 2 ^ 32 := by
+    «yang:MaxEnum» = 2 ^ 31 - 1 ∧ «yang:MinEnum» = -(2 ^ 31) ∧ «yang:MaxBitfieldSize» = 2 ^ 32 := by
   decide
 
 end Goyang.Props.ConstsC14
